@@ -4,6 +4,7 @@ import (
 	"bytes"
 	"fmt"
 	"regexp"
+	"strings"
 	"sync"
 	"text/template"
 
@@ -19,6 +20,9 @@ var pool = sync.Pool{
 // Template helper functions
 
 var invalid *regexp.Regexp = regexp.MustCompile(`\W`)
+
+var vclStringEscaper = strings.NewReplacer("%", "%25", `"`, "%22", "\r", "%0D", "\n", "%0A")
+var lineFeedReplacer = strings.NewReplacer("\r", " ", "\n", " ")
 
 var helperFuncs = template.FuncMap{
 	"printtype": func(dtype int) string {
@@ -37,6 +41,15 @@ var helperFuncs = template.FuncMap{
 	"sanitize": func(name string) string {
 		return invalid.ReplaceAllString(name, "_")
 	},
+	// Escape characters which could not be written in the VCL double-quoted string as is.
+	// The percent-encoding is decoded by the VCL string literal, so the value is unchanged
+	"vclstring": func(v string) string {
+		return vclStringEscaper.Replace(v)
+	},
+	// Comment must be single line
+	"oneline": func(v string) string {
+		return lineFeedReplacer.Replace(v)
+	},
 	"objectify": func(p Phase) string {
 		switch p {
 		case RequestPhase:
@@ -54,11 +67,12 @@ var helperFuncs = template.FuncMap{
 
 var dictionaryTemplate = template.Must(
 	template.New("dictionary").
+		Funcs(helperFuncs).
 		Parse(
 			`
 table {{ .Name }} STRING {
   {{- range .Items }}
-  "{{ .Key }}": "{{ .Value }}",
+  "{{ .Key | vclstring }}": "{{ .Value | vclstring }}",
   {{- end }}
 }
 `,
@@ -66,11 +80,12 @@ table {{ .Name }} STRING {
 
 var aclTemplate = template.Must(
 	template.New("acl").
+		Funcs(helperFuncs).
 		Parse(
 			`
 acl {{ .Name }} {
 	{{- range .Entries }}
-	{{ if .Negated }}!{{ end }}"{{ .Ip }}"{{ if .Subnet }}/{{ .Subnet }}{{ end }};{{ if .Comment }}  # {{ .Comment }}{{ end }}
+	{{ if .Negated }}!{{ end }}"{{ .Ip }}"{{ if .Subnet }}/{{ .Subnet }}{{ end }};{{ if .Comment }}  # {{ .Comment | oneline }}{{ end }}
 	{{- end }}
 }
 `,
